@@ -1,13 +1,18 @@
 /-
   C15 — Interpolation, location and densification agree along a line.
 
-  Property theorems only (helper lemmas: GeoProofs/Lemmas/C15.lean). Model: GeoModel/Interp.lean.
+  Property theorems only (helper lemmas: GeoProofs/Lemmas/C15.lean, C15PSimple.lean, C15POn.lean,
+  C15PDensify.lean; `segs` is written `Interp.segs` because `Geo.segs` of GeoModel/Segment.lean is in
+  scope through the `lineCoord` kernel). Model: GeoModel/Interp.lean.
   Segment lengths enter through an abstract `len`; what a theorem needs of it is the hypothesis
   `LenAx len` (non-negative, symmetric, zero only between equal points) — all true of the Euclidean
   length — or is stated explicitly.
 -/
 import GeoModel.Interp
 import GeoProofs.Lemmas.C15
+import GeoProofs.Lemmas.C15PSimple
+import GeoProofs.Lemmas.C15POn
+import GeoProofs.Lemmas.C15PDensify
 
 namespace Geo.Proofs.C15
 open Geo Geo.Interp
@@ -604,12 +609,14 @@ theorem deprecated_pinned_witness :
 
 /-! ### locate inverts interpolate (LineString) -/
 
-/-- [Tp] LineString round trip. FULL STATEMENT (not proved in this generality): for every
-*simple* line string of positive length and every `r`,
-`line_locate_point(point_at_ratio_from_start(line, r)) = clamp01 r`. Proved here for
-`0 < r ≤ 1` with simplicity in the explicit form `EarlierApart`; `r ≤ 0` is `locate_start` below
+/-- [T] LineString round trip, pointwise form: for `0 < r ≤ 1` and a line of positive length, if the
+interpolated point is at positive distance from every segment that ends before the one the walk
+stops on (`EarlierApart` — a hypothesis about this one point, so it also covers non-simple lines
+at the points where they have not been visited before), `line_locate_point` returns `r`.
+The full statement — every simple line string (`SimpleLS`), every `r` — is `locate_interpolate_ls`
+below, which discharges `EarlierApart` by `simple_earlierApart`; `r ≤ 0` is `locate_start`
 (no hypothesis needed); `r > 1` reduces to `r = 1` by `ls_ratio_clamp`. -/
-theorem locate_interpolate_ls_partial {len : Len} (hl : LenAx len) (cs : List Pt) (r : Rat)
+theorem locate_interpolate_ls_pointwise {len : Len} (hl : LenAx len) (cs : List Pt) (r : Rat)
     (h0 : 0 < r) (h1 : r ≤ 1) (hL : 0 < lsLength len cs) (p : Pt)
     (hp : lsPointAtRatioFromStart len cs r = some p)
     (hs : EarlierApart len cs (r * lsLength len cs) p) :
@@ -734,6 +741,230 @@ theorem rect_tri_rings_closed (mn mxp a b c : Pt) :
     SM.isClosed (rectToPoly mn mxp).ext = true ∧ SM.isClosed (triToPoly a b c).ext = true := by
   constructor <;> simp [SM.isClosed, rectToPoly, triToPoly]
 
+/-! ### LineString round trip on simple line strings (geometric hypothesis `SimpleLS`) -/
+
+private theorem segs_ne_nil_of_pos {len : Len} {cs : List Pt} (hL : 0 < lsLength len cs) :
+    Interp.segs cs ≠ [] := by
+  intro h; unfold lsLength at hL; rw [h] at hL; simp [sumLen] at hL
+
+/-- [T] on a simple line string (`SimpleLS`: two segments share a point only at the junction
+between them — stated with geo's `Line: Intersects<Coord>` kernel) every interpolated point with
+`0 < r ≤ 1` is at positive distance from all segments before the one the walk stops on, i.e. the
+hypothesis `EarlierApart` of `locate_interpolate_ls_pointwise` holds. Includes `r` exactly at a
+vertex: the walk stops on the segment that *ends* there. -/
+theorem simple_earlierApart {len : Len} (hl : LenAx len) (cs : List Pt) (hs : SimpleLS cs) (r : Rat)
+    (h0 : 0 < r) (h1 : r ≤ 1) (hL : 0 < lsLength len cs) (p : Pt)
+    (hp : lsPointAtRatioFromStart len cs r = some p) :
+    EarlierApart len cs (r * lsLength len cs) p := by
+  have hd0 : 0 < r * lsLength len cs := mul_pos h0 hL
+  have hd1 : r * lsLength len cs ≤ lsLength len cs := by nlinarith
+  obtain ⟨q, hq, hon⟩ := ls_distance_onSegs hl cs _ (segs_ne_nil_of_pos hL) (le_of_lt hd0) hd1
+  unfold lsPointAtRatioFromStart at hp
+  rw [hp] at hq
+  cases hq
+  exact earlierApart_of_simple hl cs hs _ p hon
+
+/-- [T] `locate_interpolate_ls`: for every simple line string of positive total length and
+**every** ratio `r`, `line_locate_point(point_at_ratio_from_start(line, r)) = clamp01 r`. -/
+theorem locate_interpolate_ls {len : Len} (hl : LenAx len) (cs : List Pt) (hs : SimpleLS cs)
+    (hL : 0 < lsLength len cs) (r : Rat) :
+    (lsPointAtRatioFromStart len cs r).map (lsLineLocatePoint len cs) = some (clamp01 r) := by
+  have hne := segs_ne_nil_of_pos hL
+  have key : ∀ r', 0 < r' → r' ≤ 1 →
+      (lsPointAtRatioFromStart len cs r').map (lsLineLocatePoint len cs) = some r' := by
+    intro r' h0' h1'
+    obtain ⟨p, hp, _⟩ := ls_distance_onSegs hl cs (r' * lsLength len cs) hne
+      (le_of_lt (mul_pos h0' hL)) (by nlinarith)
+    have hp' : lsPointAtRatioFromStart len cs r' = some p := hp
+    rw [hp']
+    simp only [Option.map_some]
+    congr 1
+    exact locate_interpolate_ls_pointwise hl cs r' h0' h1' hL p hp'
+      (simple_earlierApart hl cs hs r' h0' h1' hL p hp')
+  rw [clamp01_eq]
+  by_cases h0 : r ≤ 0
+  · rw [(ls_ratio_clamp hl cs r).1 h0, if_pos h0]
+    match cs, hne with
+    | a :: rest, _ => simp [locate_start]
+  · rw [if_neg h0]
+    by_cases h1 : 1 ≤ r
+    · rw [(ls_ratio_clamp hl cs r).2 h1, ← (ls_ratio_clamp hl cs 1).2 (le_refl _), if_pos h1]
+      exact key 1 (by norm_num) (le_refl _)
+    · rw [if_neg h1]
+      exact key r (not_le.1 h0) (le_of_lt (not_le.1 h1))
+
+/-! ### every interpolated point lies on the line -/
+
+/-- [T] an empty line string has no interpolated point (all four forms). -/
+theorem ls_empty_none (len : Len) (x : Rat) :
+    lsPointAtDistanceFromStart len [] x = none ∧ lsPointAtDistanceFromEnd len [] x = none ∧
+    lsPointAtRatioFromStart len [] x = none ∧ lsPointAtRatioFromEnd len [] x = none := by
+  simp [lsPointAtRatioFromStart, lsPointAtRatioFromEnd, lsPointAtDistanceFromStart,
+    lsPointAtDistanceFromEnd, revSegs, Interp.segs, walk]
+
+/-- [T] `point_at_distance_from_start` lies on the line string, for **every** distance
+(negative and beyond the length included) and every non-empty line string. -/
+theorem ls_distance_on_line {len : Len} (hl : LenAx len) (cs : List Pt) (hne : cs ≠ []) (d : Rat) :
+    ∃ p, lsPointAtDistanceFromStart len cs d = some p ∧ OnLS cs p := by
+  by_cases hs : Interp.segs cs = []
+  · rcases segs_eq_nil hs with h | ⟨a, rfl⟩
+    · exact absurd h hne
+    · refine ⟨a, ?_, Or.inl rfl⟩
+      unfold lsPointAtDistanceFromStart
+      by_cases hd : d ≤ 0 <;> simp [hd, Interp.segs, walk]
+  · have hL : 0 ≤ lsLength len cs := sumLen_nonneg hl _
+    obtain ⟨d', h0, h1, he⟩ : ∃ d', 0 ≤ d' ∧ d' ≤ lsLength len cs ∧
+        lsPointAtDistanceFromStart len cs d = lsPointAtDistanceFromStart len cs d' := by
+      by_cases hd0 : d ≤ 0
+      · exact ⟨0, le_refl _, hL, by
+          rw [(ls_distance_clamp_lo len cs d hd0).1, (ls_distance_clamp_lo len cs 0 (le_refl _)).1]⟩
+      · by_cases hd1 : lsLength len cs ≤ d
+        · exact ⟨lsLength len cs, hL, le_refl _, by
+            rw [ls_distance_clamp_hi hl cs d hd1, ls_distance_clamp_hi hl cs _ (le_refl _)]⟩
+        · exact ⟨d, le_of_lt (not_le.1 hd0), le_of_lt (not_le.1 hd1), rfl⟩
+    obtain ⟨p, hp, hon⟩ := ls_distance_onSegs hl cs d' hs h0 h1
+    exact ⟨p, by rw [he, hp], onLS_of_lerp (onSegs_on_segment hl _ _ _ hon)⟩
+
+/-- [T] `point_at_ratio_from_start` lies on the line string, for every ratio. -/
+theorem ls_ratio_on_line {len : Len} (hl : LenAx len) (cs : List Pt) (hne : cs ≠ []) (r : Rat) :
+    ∃ p, lsPointAtRatioFromStart len cs r = some p ∧ OnLS cs p :=
+  ls_distance_on_line hl cs hne _
+
+/-- [T] `point_at_distance_from_end` lies on the line string, for every distance. -/
+theorem ls_distance_from_end_on_line {len : Len} (hl : LenAx len) (cs : List Pt) (hne : cs ≠ [])
+    (d : Rat) : ∃ p, lsPointAtDistanceFromEnd len cs d = some p ∧ OnLS cs p := by
+  rw [from_end_eq_reverse]
+  obtain ⟨p, hp, hon⟩ := ls_distance_on_line hl cs.reverse (by simpa using hne) d
+  exact ⟨p, hp, (onLS_reverse cs p).1 hon⟩
+
+/-- [T] `point_at_ratio_from_end` lies on the line string, for every ratio. -/
+theorem ls_ratio_from_end_on_line {len : Len} (hl : LenAx len) (cs : List Pt) (hne : cs ≠ [])
+    (r : Rat) : ∃ p, lsPointAtRatioFromEnd len cs r = some p ∧ OnLS cs p :=
+  ls_distance_from_end_on_line hl cs hne _
+
+/-- [T] Line: the ratio forms return a point of the closed segment, for every ratio. -/
+theorem line_ratio_on_line (a b : Pt) (r : Rat) :
+    lineCoord a b (linePointAtRatioFromStart a b r) = true ∧
+    lineCoord a b (linePointAtRatioFromEnd a b r) = true := by
+  unfold linePointAtRatioFromStart linePointAtRatioFromEnd
+  by_cases h0 : r ≤ 0
+  · simp [h0, lineCoord_start, lineCoord_end]
+  · by_cases h1 : r ≥ 1
+    · simp [h0, h1, lineCoord_start, lineCoord_end]
+    · simp only [h0, h1, if_false]
+      refine ⟨lineCoord_lerp a b r (le_of_lt (not_le.1 h0)) (le_of_lt (not_le.1 h1)), ?_⟩
+      rw [← lineCoord_swap]
+      exact lineCoord_lerp b a r (le_of_lt (not_le.1 h0)) (le_of_lt (not_le.1 h1))
+
+/-- [T] Line: the distance forms return a point of the closed segment, for every distance. -/
+theorem line_distance_on_line {len : Len} (hl : LenAx len) (a b : Pt) (d : Rat) :
+    lineCoord a b (linePointAtDistanceFromStart len a b d) = true ∧
+    lineCoord a b (linePointAtDistanceFromEnd len a b d) = true := by
+  unfold linePointAtDistanceFromStart linePointAtDistanceFromEnd
+  by_cases h0 : d ≤ 0
+  · simp [h0, lineCoord_start, lineCoord_end]
+  · by_cases h1 : d ≥ len a b
+    · simp [h0, h1, lineCoord_start, lineCoord_end]
+    · simp only [h0, h1, if_false]
+      have hd : 0 < d := not_le.1 h0
+      have hlt : d < len a b := not_le.1 h1
+      have hpos : 0 < len a b := lt_trans hd hlt
+      have t0 : 0 ≤ d / len a b := le_of_lt (div_pos hd hpos)
+      have t1 : d / len a b ≤ 1 := by rw [div_le_iff₀ hpos]; linarith
+      refine ⟨?_, ?_⟩
+      · rw [← lerp_div]; exact lineCoord_lerp a b _ t0 t1
+      · rw [← lineCoord_swap, ← lerp_div, ← hl.symm a b]; exact lineCoord_lerp b a _ t0 t1
+
+/-! ### densify on rings, polygons, Rect, Triangle and the multi-geometries -/
+
+/-- [T] a polygon with closed rings (the geo-types invariant): the rings of the result are the
+densified rings, one for one. -/
+theorem densify_poly_rings_map (len : Len) (mx : Rat) (p : Poly) (hc : PolyClosed p) :
+    polyRings (densifyPoly len p mx) = (polyRings p).map (fun r => densifyLS len r mx) := by
+  rw [densify_poly_rings len mx p (hc _ (by simp [polyRings]))
+    (fun r hr => hc r (by simp [polyRings, hr]))]
+  simp [polyRings]
+
+/-- [T] for every geometry that implements `Densifiable` (Line, LineString, MultiLineString,
+Polygon, MultiPolygon, Rect, Triangle) the coordinate sequences of `densify(max)` are the
+densified coordinate sequences of the input, one for one (polygon rings closed, as built by
+`Polygon::new`; `Rect`/`Triangle` go through `to_polygon`, whose ring is closed). -/
+theorem densify_geom_rings (len : Len) (mx : Rat) (g g' : Geom) (hc : GeomClosed g)
+    (h : densify len mx g = some g') :
+    geomRings g' = (geomRings g).map (fun r => densifyLS len r mx) := by
+  cases g with
+  | point p => simp [densify] at h
+  | multiPoint ps => simp [densify] at h
+  | collection gs => simp [densify] at h
+  | line a b =>
+    simp only [densify, Option.some.injEq] at h; subst h
+    simp [geomRings, densifyLine_eq_LS]
+  | lineString cs =>
+    simp only [densify, Option.some.injEq] at h; subst h
+    simp [geomRings]
+  | multiLineString ls =>
+    simp only [densify, Option.some.injEq] at h; subst h
+    simp [geomRings]
+  | polygon p =>
+    simp only [densify, Option.some.injEq] at h; subst h
+    exact densify_poly_rings_map len mx p hc
+  | multiPolygon ps =>
+    simp only [densify, Option.some.injEq] at h; subst h
+    exact flatMap_map_rings _ _ ps (fun p hp => densify_poly_rings_map len mx p (hc p hp))
+  | rect mn mxp =>
+    simp only [densify, Option.some.injEq] at h; subst h
+    exact densify_poly_rings_map len mx _ (polyClosed_rect mn mxp)
+  | triangle a b c =>
+    simp only [densify, Option.some.injEq] at h; subst h
+    exact densify_poly_rings_map len mx _ (polyClosed_tri a b c)
+
+/-- [T] `densify(max)` produces no segment longer than `max`, on every `Densifiable` geometry
+(including the closing edge of Polygon / Rect / Triangle rings). -/
+theorem densify_geom_pieces {len : Len} (hl : LenAx len) (hh : LenLerp len) (mx : Rat) (hmx : 0 < mx)
+    (g g' : Geom) (hc : GeomClosed g) (h : densify len mx g = some g') :
+    ∀ r ∈ geomRings g', ∀ s ∈ Interp.segs r, len s.1 s.2 ≤ mx := by
+  rw [densify_geom_rings len mx g g' hc h]
+  intro r hr
+  obtain ⟨r0, _, rfl⟩ := List.mem_map.1 hr
+  exact densify_ls_pieces hl hh mx hmx r0
+
+/-- [T] `densify(max)` leaves the length of every coordinate sequence — hence the total length
+/ perimeter — unchanged, on every `Densifiable` geometry. -/
+theorem densify_geom_length {len : Len} (hl : LenAx len) (hh : LenLerp len) (mx : Rat) (hmx : 0 < mx)
+    (g g' : Geom) (hc : GeomClosed g) (h : densify len mx g = some g') :
+    (geomRings g').map (lsLength len) = (geomRings g).map (lsLength len) ∧
+    geomLength len g' = geomLength len g := by
+  have e : (geomRings g').map (lsLength len) = (geomRings g).map (lsLength len) := by
+    rw [densify_geom_rings len mx g g' hc h, List.map_map]
+    apply List.map_congr_left
+    intro r _
+    exact densify_ls_length hl hh mx hmx r
+  exact ⟨e, by unfold geomLength; rw [e]⟩
+
+/-- [T] every original coordinate sequence is kept, in order, inside its densified sequence, and
+closed rings stay closed. -/
+theorem densify_geom_vertices (len : Len) (mx : Rat) (g g' : Geom) (hc : GeomClosed g)
+    (h : densify len mx g = some g') :
+    List.Forall₂ (fun r r' => r.Sublist r' ∧ r'.head? = r.head? ∧ r'.getLast? = r.getLast?)
+      (geomRings g) (geomRings g') := by
+  rw [densify_geom_rings len mx g g' hc h]
+  generalize geomRings g = rs
+  induction rs with
+  | nil => exact List.Forall₂.nil
+  | cons r rs ih =>
+    exact List.Forall₂.cons ⟨densify_sublist len mx r, densify_ends len mx r⟩ ih
+
+/-- [T] the closedness hypothesis is needed: on an *unclosed* ring (not constructible through
+`Polygon::new`) the closing edge added by `Polygon::new` after densifying is not split. -/
+theorem densify_unclosed_witness :
+    ∃ s ∈ Interp.segs (densifyPoly l1 ⟨[⟨0, 0⟩, ⟨4, 0⟩, ⟨4, 1⟩], []⟩ 4).ext, ¬ l1 s.1 s.2 ≤ 4 := by
+  have e1 : densifyBetween l1 ⟨0, 0⟩ ⟨4, 0⟩ 4 = [] :=
+    densify_between_short l1_ax _ _ 4 (by norm_num) (by norm_num [l1])
+  have e2 : densifyBetween l1 ⟨4, 0⟩ ⟨4, 1⟩ 4 = [] :=
+    densify_between_short l1_ax _ _ 4 (by norm_num) (by norm_num [l1])
+  refine ⟨(⟨4, 1⟩, ⟨0, 0⟩), ?_, by norm_num [l1]⟩
+  simp [densifyPoly, densifyLS, Interp.segs, densifySegs, e1, e2, SM.close, SM.isClosed]
+
 /-! ### non-vacuity: the hypotheses are satisfiable, on a path with a repeated vertex
 
 `l1` (taxicab length, `GeoProofs/Lemmas/C15.lean`) satisfies `LenAx` and `LenLerp`. -/
@@ -763,7 +994,7 @@ example : densifyPoly l1 (rectToPoly ⟨0, 0⟩ ⟨4, 2⟩) 1 =
 example : linePointAtDistanceFromStart l1 ⟨0, 0⟩ ⟨3, 4⟩ 2 = linePointAtDistanceFromEnd l1 ⟨0, 0⟩ ⟨3, 4⟩ (l1 ⟨0, 0⟩ ⟨3, 4⟩ - 2) :=
   line_distance_start_end l1_ax _ _ _ (by norm_num) (by norm_num [l1])
 
-/-- the simplicity hypothesis of the partial theorem holds on a concrete simple path, at its end -/
+/-- the hypothesis of the pointwise theorem holds on a concrete simple path, at its end -/
 example : EarlierApart l1 [⟨0, 0⟩, ⟨2, 0⟩, ⟨2, 3⟩] 5 ⟨2, 3⟩ := by
   intro pre a b post e h1 h2 s hs
   match pre, e, hs with
@@ -773,5 +1004,94 @@ example : EarlierApart l1 [⟨0, 0⟩, ⟨2, 0⟩, ⟨2, 3⟩] 5 ⟨2, 3⟩ := b
     rw [hs, ← e.1]
     norm_num [segDistSq]
   | x :: y :: z, e, _ => simp [Interp.segs] at e
+
+/-- a concrete simple path (an L-shape) satisfies `SimpleLS` -/
+private theorem exSimple : SimpleLS [⟨0, 0⟩, ⟨2, 0⟩, ⟨2, 3⟩] := by
+  intro pre a b mid c d post q e hab hcd
+  match pre, e with
+  | [], e =>
+    simp only [Interp.segs, List.nil_append, List.cons.injEq, Prod.mk.injEq] at e
+    obtain ⟨⟨rfl, rfl⟩, e2⟩ := e
+    match mid, e2 with
+    | [], e2 =>
+      simp only [List.nil_append, List.cons.injEq, Prod.mk.injEq] at e2
+      obtain ⟨⟨rfl, rfl⟩, _⟩ := e2
+      rw [Kernel.lineCoord_iff] at hab hcd
+      obtain ⟨t, _, _, hx, hy⟩ := hab
+      obtain ⟨u, _, _, hx', hy'⟩ := hcd
+      have : q = ⟨2, 0⟩ := Pt.ext' (by simp only at hx' ⊢; linarith) (by simp only at hy ⊢; linarith)
+      exact ⟨this, this, by simp⟩
+    | [m], e2 => simp at e2
+    | _ :: _ :: _, e2 => simp at e2
+  | [x], e =>
+    simp only [Interp.segs, List.cons_append, List.nil_append, List.cons.injEq] at e
+    have h := e.2.2
+    simp at h
+  | _ :: _ :: _, e => simp [Interp.segs] at e
+
+/-- the round trip exactly at the corner vertex (`r = 2/5` of length 5) and beyond both ends -/
+example : (lsPointAtRatioFromStart l1 [⟨0, 0⟩, ⟨2, 0⟩, ⟨2, 3⟩] (2 / 5)).map
+    (lsLineLocatePoint l1 [⟨0, 0⟩, ⟨2, 0⟩, ⟨2, 3⟩]) = some (clamp01 (2 / 5)) :=
+  locate_interpolate_ls l1_ax _ exSimple (by norm_num [lsLength, Interp.segs, sumLen, l1]) _
+example : (lsPointAtRatioFromStart l1 [⟨0, 0⟩, ⟨2, 0⟩, ⟨2, 3⟩] 7).map
+    (lsLineLocatePoint l1 [⟨0, 0⟩, ⟨2, 0⟩, ⟨2, 3⟩]) = some (clamp01 7) :=
+  locate_interpolate_ls l1_ax _ exSimple (by norm_num [lsLength, Interp.segs, sumLen, l1]) _
+example : EarlierApart l1 [⟨0, 0⟩, ⟨2, 0⟩, ⟨2, 3⟩] (2 / 5 * lsLength l1 [⟨0, 0⟩, ⟨2, 0⟩, ⟨2, 3⟩]) ⟨2, 0⟩ :=
+  simple_earlierApart l1_ax _ exSimple (2 / 5) (by norm_num) (by norm_num)
+    (by norm_num [lsLength, Interp.segs, sumLen, l1]) _
+    (by norm_num [lsPointAtRatioFromStart, lsPointAtDistanceFromStart, lsLength, Interp.segs, sumLen, l1,
+      walk, pointAtDistanceBetween])
+
+/-- a path that touches itself is not simple: the hypothesis excludes it -/
+example : ¬ SimpleLS [⟨0, 0⟩, ⟨2, 0⟩, ⟨2, 2⟩, ⟨1, 0⟩] := by
+  intro h
+  have := (h [] ⟨0, 0⟩ ⟨2, 0⟩ [(⟨2, 0⟩, ⟨2, 2⟩)] ⟨2, 2⟩ ⟨1, 0⟩ [] ⟨1, 0⟩ rfl
+    (by rw [Kernel.lineCoord_iff]; exact ⟨1 / 2, by norm_num, by norm_num, by norm_num, by norm_num⟩)
+    (lineCoord_end _ _)).1
+  simp at this
+
+example : ∃ p, lsPointAtRatioFromStart l1 exPath (-3) = some p ∧ OnLS exPath p :=
+  ls_ratio_on_line l1_ax _ (by simp [exPath]) _
+example : ∃ p, lsPointAtDistanceFromEnd l1 exPath (9 / 2) = some p ∧ OnLS exPath p :=
+  ls_distance_from_end_on_line l1_ax _ (by simp [exPath]) _
+example : ∃ p, lsPointAtDistanceFromStart l1 exPath 100 = some p ∧ OnLS exPath p :=
+  ls_distance_on_line l1_ax _ (by simp [exPath]) _
+example : lineCoord ⟨0, 0⟩ ⟨3, 4⟩ (linePointAtDistanceFromEnd l1 ⟨0, 0⟩ ⟨3, 4⟩ 2) = true :=
+  (line_distance_on_line l1_ax _ _ _).2
+
+/-- Rect, Triangle, Polygon with a hole, MultiPolygon: the hypotheses of the densify theorems -/
+example : ∀ r ∈ geomRings (.polygon (densifyPoly l1 (triToPoly ⟨0, 0⟩ ⟨4, 0⟩ ⟨0, 3⟩) 1)),
+    ∀ s ∈ Interp.segs r, l1 s.1 s.2 ≤ 1 :=
+  densify_geom_pieces l1_ax l1_lerp 1 (by norm_num) (.triangle ⟨0, 0⟩ ⟨4, 0⟩ ⟨0, 3⟩) _ trivial rfl
+example : geomLength l1 (.polygon (densifyPoly l1 (rectToPoly ⟨0, 0⟩ ⟨4, 2⟩) (3 / 2))) =
+    geomLength l1 (.rect ⟨0, 0⟩ ⟨4, 2⟩) :=
+  (densify_geom_length l1_ax l1_lerp (3 / 2) (by norm_num) (.rect ⟨0, 0⟩ ⟨4, 2⟩) _ trivial rfl).2
+
+private def exPoly : Poly :=
+  ⟨[⟨0, 0⟩, ⟨9, 0⟩, ⟨9, 9⟩, ⟨0, 0⟩], [[⟨5, 2⟩, ⟨7, 2⟩, ⟨7, 4⟩, ⟨5, 2⟩]]⟩
+
+private theorem exPoly_closed : PolyClosed exPoly := by
+  intro r hr
+  simp only [polyRings, exPoly, List.mem_cons, List.not_mem_nil, or_false] at hr
+  rcases hr with rfl | rfl <;> simp [SM.isClosed]
+
+example : ∀ r ∈ geomRings (.multiPolygon ([exPoly, exPoly].map (fun p => densifyPoly l1 p 2))),
+    ∀ s ∈ Interp.segs r, l1 s.1 s.2 ≤ 2 :=
+  densify_geom_pieces l1_ax l1_lerp 2 (by norm_num) (.multiPolygon [exPoly, exPoly]) _
+    (by intro p hp; simp only [List.mem_cons, List.not_mem_nil, or_false, or_self] at hp
+        rw [hp]; exact exPoly_closed) rfl
+example : geomLength l1 (.polygon (densifyPoly l1 exPoly 2)) = geomLength l1 (.polygon exPoly) :=
+  (densify_geom_length l1_ax l1_lerp 2 (by norm_num) (.polygon exPoly) _ exPoly_closed rfl).2
+
+example : ∃ p, lsPointAtRatioFromEnd l1 exPath (1 / 3) = some p ∧ OnLS exPath p :=
+  ls_ratio_from_end_on_line l1_ax _ (by simp [exPath]) _
+example : polyRings (densifyPoly l1 exPoly 2) = (polyRings exPoly).map (fun r => densifyLS l1 r 2) :=
+  densify_poly_rings_map l1 2 exPoly exPoly_closed
+example : geomRings (.multiLineString ([exPath, []].map (fun l => densifyLS l1 l 1))) =
+    (geomRings (.multiLineString [exPath, []])).map (fun r => densifyLS l1 r 1) :=
+  densify_geom_rings l1 1 (.multiLineString [exPath, []]) _ trivial rfl
+example : List.Forall₂ (fun r r' => r.Sublist r' ∧ r'.head? = r.head? ∧ r'.getLast? = r.getLast?)
+    (geomRings (.polygon exPoly)) (geomRings (.polygon (densifyPoly l1 exPoly 2))) :=
+  densify_geom_vertices l1 2 (.polygon exPoly) _ exPoly_closed rfl
 
 end Geo.Proofs.C15
